@@ -6,7 +6,8 @@ Transcribed, branch by branch, from
 * `jedi/inference/signature.py`: `_SignatureMixin.to_string`, `TreeSignature.get_param_names`,
   `_remove_bound_param`
 * `jedi/inference/star_args.py`: `process_params` for a body that forwards neither `*args` nor
-  `**kwargs` (no callables found)
+  `**kwargs` (no callables found), and for a body that forwards `**kwargs` (only) to callees that
+  forward nothing themselves (`_remove_given_params`, the `star_count=2` recursion)
 * `jedi/api/helpers.py`: `_iter_arguments`, `CallDetails.calculate_index /
   count_positional_arguments / iter_used_keyword_arguments`
 * `jedi/api/classes.py`: `BaseName.docstring` (assembly of signature line(s) and raw text)
@@ -126,6 +127,62 @@ def removeBoundParam : List PName → List PName
 /-- `TreeSignature.get_param_names(resolve_stars=True)` -/
 def signatureParams (bound : Bool) (ps : List PName) : List PName :=
   if bound then removeBoundParam (processParams ps) else processParams ps
+
+/-! ## `process_params` when `**kwargs` is forwarded (one level) -/
+
+/-- `maybe_positional_argument()` / `maybe_keyword_argument()` (stars included) -/
+def maybePositional (p : PName) : Bool :=
+  decide (p.kind = .posOnly) || decide (p.kind = .posOrKw) || decide (p.kind = .varPos)
+
+def maybeKeyword (p : PName) : Bool :=
+  decide (p.kind = .kwOnly) || decide (p.kind = .posOrKw) || decide (p.kind = .varKw)
+
+/-- `_remove_given_params(arguments, param_names)`: `count` = number of positional arguments the
+forwarding call `g(e1, …, k1=…, **kwargs)` gives itself, `keys` = the keyword names it gives -/
+def removeGiven : Nat → List Str → List PName → List PName
+  | _, _, [] => []
+  | count, keys, p :: rest =>
+    if count ≠ 0 && maybePositional p then removeGiven (count - 1) keys rest
+    else if keys.contains p.name && maybeKeyword p then removeGiven count keys rest
+    else p :: removeGiven count keys rest
+
+/-- first loop of `process_params(param_names, star_count=2)`: `*args` and positional-only
+names are skipped (`star_count & 1` is 0), positional-or-keyword names become
+`ParamNameFixedKind(p, KEYWORD_ONLY)`.  Result: (kw_only_names, original_kwarg_name) -/
+def ppScan2 : List PName → (List PName × Option PName)
+  | [] => ([], none)
+  | p :: rest =>
+    let (ks, k) := ppScan2 rest
+    match p.kind with
+    | .varPos => (ks, k)
+    | .varKw => (ks, some (k.getD p))
+    | .kwOnly => (p :: ks, k)
+    | .posOnly => (ks, k)
+    | .posOrKw => ({ p with kind := .kwOnly } :: ks, k)
+
+/-- `process_params(param_names, star_count=2)` for a callee whose own body forwards nothing:
+the keyword-only names (`used_names` starts empty), then its `**kwargs` -/
+def processParams2 (ps : List PName) : List PName :=
+  let (ks, k) := ppScan2 ps
+  ppKwOnly ks [] ++ k.toList
+
+/-- `process_params(param_names)` (star_count 3) when `*args` is forwarded nowhere and the
+`**kwargs` parameter is forwarded to calls whose callees show the parameter lists `callees`
+(each = `_remove_given_params(arguments, signature.get_param_names(resolve_stars=False))`, in the
+order `_iter_nodes_for_param` finds the calls; every callee has exactly one signature and forwards
+nothing itself).  With `callees = []` this is `processParams`. -/
+def processParamsKw (ps : List PName) (callees : List (List PName)) : List PName :=
+  let (ys, a, ks, k, used) := ppScan ps
+  let inner := callees.flatMap processParams2
+  let kwargNames := inner.filter fun p => decide (p.kind = .varKw)
+  let kwOnly := inner.filter fun p => decide (p.kind = .kwOnly)
+  ys ++ a.toList ++ ppKwOnly (ks ++ kwOnly) used ++
+    (if callees.isEmpty then k.toList else kwargNames.head?.toList)
+
+/-- what a callee hands to the forwarding machinery: `signature.get_param_names(resolve_stars=False)`
+(bound ⇒ `_remove_bound_param`, no `process_params`) through `_remove_given_params` -/
+def calleeParams (bound : Bool) (count : Nat) (keys : List Str) (ps : List PName) : List PName :=
+  removeGiven count keys (if bound then removeBoundParam ps else ps)
 
 /-! ## `to_string` -/
 
@@ -494,6 +551,20 @@ def pyBind (s : Sig) (prev : List CArg) (cur : CArg) : Option Nat :=
       match optIdx (s.ko.map P.name) n with
       | some j => some (nfix + nvp + j)
       | none => if s.vk.isSome then some (nfix + nvp + s.ko.length) else none
+
+/-- CPython accepts the call `f(e1, …, e_npos, k1=…, …)` (keywords `kws` distinct): no
+`TypeError` from argument binding.  Positional arguments must fit (`*vp` takes the overflow), every
+keyword must name a not yet filled positional-or-keyword or a keyword-only parameter or go to
+`**vk`, and every parameter without a default must have been given. -/
+def pyAccepts (s : Sig) (npos : Nat) (kws : List Str) : Bool :=
+  (decide (npos ≤ s.po.length + s.pk.length) || s.vp.isSome) &&
+  kws.all (fun n =>
+    match optIdx (s.pk.map P.name) n with
+    | some j => !decide (s.po.length + j < npos)
+    | none => (s.ko.map P.name).contains n || s.vk.isSome) &&
+  (s.po.drop npos).all (fun p => p.dflt.isSome) &&
+  (s.pk.drop (npos - s.po.length)).all (fun p => p.dflt.isSome || kws.contains p.name) &&
+  s.ko.all (fun p => p.dflt.isSome || kws.contains p.name)
 
 /-! ## Python: the signature of a bound method -/
 
